@@ -216,3 +216,36 @@ def record_paths(P: Program, fault: bool = True, key_errors: bool = False):
 def flag_kind(p: Path) -> str:
     pos = [k for k in KIND_FLAGS if p.val.get(f"rec.{k}") is True]
     return pos[0] if len(pos) == 1 else ("+".join(pos) if pos else "none")
+
+
+MUTATORS = ("remove", "pop", "insert", "append", "extend", "clear", "sort", "reverse", "popleft", "appendleft", "discard", "add", "update")
+
+
+def iterated_container_mutations(paths: list[Path]) -> list[tuple]:
+    """(loop event, mutating event) pairs: inside the body of a `for` loop, the very container term the loop iterates (not a copy
+    of it) is grown or shrunk.  For a list that makes the loop skip or repeat elements (removing the current element moves the
+    next one into its slot); for a dict / set it raises.  Pruning a listing while iterating a *copy* of it is not reported."""
+    out = []
+
+    def walk(ps):
+        for p in ps:
+            for e in p.evs:
+                if e.kind != "loop":
+                    continue
+                if e.extra.get("kind") == "for":
+                    for b in e.extra["paths"]:
+                        for x in b.flat():
+                            if x.kind == "call" and x.extra.get("func", "").rsplit(".", 1)[-1] in MUTATORS and x.extra.get("func", "").rsplit(".", 1)[0] == e.text:
+                                out.append((e, x))
+                            elif x.kind == "del" and x.extra.get("container") == e.text:
+                                out.append((e, x))
+                walk(e.extra["paths"])
+
+    walk(paths)
+    seen, uniq = set(), []
+    for e, x in out:
+        k = (id(e.node), id(x.node))
+        if k not in seen:
+            seen.add(k)
+            uniq.append((e, x))
+    return uniq
